@@ -607,8 +607,17 @@ func (vm *VM) nextCall() bool {
 			for i = i - 1; i >= 0; i-- {
 				call = vm.calls[i]
 				if call.status == deferred {
-					vm.calls[i] = vm.calls[i+1]
-					vm.calls[i].status = panicked
+					// The registers of the deferred call are moved above
+					// the registers of the function that deferred it, as
+					// when the function returns, so that the deferred call
+					// does not overwrite them: they are read if the
+					// function recovers.
+					owner := vm.calls[i+1]
+					if owner.cl.fn != nil {
+						vm.swapStack(&call.fp, &owner.fp, owner.cl.fn.NumReg)
+					}
+					owner.status = panicked
+					vm.calls[i] = owner
 					i++
 					break
 				}
